@@ -348,4 +348,612 @@ theorem restore_fixed (w : World) (hw : w.OK) (L : List Rec) (hL : ValidLog w L)
     simp only [List.map_cons] at this ⊢
     rw [this]
     simp
+
+theorem ValidLog.prefix {w : World} {L K : List Rec} (h : ValidLog w L) (hK : K <+: L) : ValidLog w K := by
+  refine ⟨?_, fun r hr => h.2.1 r (hK.subset hr), ?_⟩
+  · exact (h.1.sublist ((hK.sublist).map _))
+  · intro r hr
+    apply h.2.2
+    obtain ⟨t, rfl⟩ := hK
+    cases K with
+    | nil => simp at hr
+    | cons a K' => simpa using hr
+
+theorem ValidLog.nil (w : World) : ValidLog w [] := ⟨by simp, by simp, by simp⟩
+
+theorem any_exp_iff (w : World) (hw : w.OK) (hT : (makeTasks [] w.triples).Nodup)
+    (K : List Rec) (hK : ∀ r ∈ K, r ∈ w.universe) :
+    K.any (fun r => decide (r.key = Key.exp)) = true ↔ w.exp ∈ K := by
+  simp only [List.any_eq_true, decide_eq_true_eq]
+  constructor
+  · rintro ⟨r, hr, hk⟩
+    have : r = w.exp := eq_of_key_eq (universe_keys_nodup w hw hT) (hK r hr)
+      (by simp [World.universe]) (by rw [hk, hw.exp_key])
+    exact this ▸ hr
+  · intro h
+    exact ⟨w.exp, h, hw.exp_key⟩
+
+/-- what `preamble` writes, under the repaired rule or when the rule does not matter -/
+theorem preamble_spec (w : World) (hw : w.OK) (hT : (makeTasks [] w.triples).Nodup) (fl : Flags)
+    (K : List Rec) (hK : ∀ r ∈ K, r ∈ w.universe)
+    (hpre : fl.preambleFix = true ∨ K = [] ∨ w.exp ∈ K) :
+    (K = [] ∧ preamble fl w.ver w.exp K = [w.ver, w.exp]) ∨
+    (K ≠ [] ∧ w.exp ∈ K ∧ preamble fl w.ver w.exp K = []) ∨
+    (K ≠ [] ∧ w.exp ∉ K ∧ preamble fl w.ver w.exp K = [w.exp]) := by
+  cases K with
+  | nil => left; simp [preamble]
+  | cons a K' =>
+    right
+    have hany := any_exp_iff w hw hT (a :: K') hK
+    by_cases he : w.exp ∈ a :: K'
+    · left
+      refine ⟨by simp, he, ?_⟩
+      simp only [preamble, List.isEmpty_cons, hany.mpr he]
+      simp
+    · right
+      refine ⟨by simp, he, ?_⟩
+      have hf : fl.preambleFix = true := by
+        rcases hpre with h | h | h
+        · exact h
+        · cases h
+        · exact absurd h he
+      have : (a :: K').any (fun r => decide (r.key = Key.exp)) = false := by
+        cases h : (a :: K').any (fun r => decide (r.key = Key.exp)) with
+        | false => rfl
+        | true => exact absurd (hany.mp h) he
+      simp only [preamble, List.isEmpty_cons, this, hf]
+      simp
+
+theorem finish_correct (w : World) (hw : w.OK) (hT : (makeTasks [] w.triples).Nodup) (hI : NonEmptyI w)
+    (K : List Rec) (hKv : ValidLog w K) (fl : Flags)
+    (hpre : fl.preambleFix = true ∨ K = [] ∨ w.exp ∈ K)
+    (app : List Rec) (happ : app.Perm ((makeTasks K w.triples).filterMap w.out)) :
+    let o := finish w.c ⟨serialize (K.map w.c.enc), K⟩ (makeTasks K w.triples) (preamble fl w.ver w.exp K) app
+    o.file = serialize ((K ++ o.appended).map w.c.enc) ∧
+    o.final = some (K ++ o.appended) ∧
+    ValidLog w (K ++ o.appended) ∧
+    (K ++ o.appended).Perm w.universe ∧
+    (∀ t ∈ o.tasks, ∀ r ∈ K, r.key ≠ t.key) := by
+  intro o
+  have hUk := universe_keys_nodup w hw hT
+  have hKU := hKv.2.1
+  have hverU : w.ver ∈ w.universe := by simp [World.universe]
+  have hexpU : w.exp ∈ w.universe := by simp [World.universe]
+  -- tasks of the resumed run
+  have hTf := makeTasks_filter K w.triples
+  have hTn : (makeTasks K w.triples).Nodup := hTf ▸ hT.filter _
+  have hmem_app : ∀ r, r ∈ app ↔ ∃ t ∈ makeTasks [] w.triples, done K t = false ∧ w.out t = some r := by
+    intro r
+    rw [happ.mem_iff, List.mem_filterMap]
+    constructor
+    · rintro ⟨t, ht, ho⟩
+      rw [hTf, List.mem_filter] at ht
+      exact ⟨t, ht.1, by simpa using ht.2, ho⟩
+    · rintro ⟨t, ht, hd, ho⟩
+      exact ⟨t, by rw [hTf, List.mem_filter]; exact ⟨ht, by simp [hd]⟩, ho⟩
+  have happU : ∀ r ∈ app, r ∈ w.universe := by
+    intro r hr
+    obtain ⟨t, ht, _, ho⟩ := (hmem_app r).mp hr
+    exact (mem_universe_iff w r).mpr (Or.inr (Or.inr ⟨t, ht, ho⟩))
+  have happk : (app.map (·.key)).Nodup :=
+    (happ.map _).nodup_iff.mpr (filterMap_out_keys_nodup w.out hw.out_key _ hTn)
+  have happ_task : ∀ r ∈ app, ∃ t, r.key = t.key ∧ done K t = false := by
+    intro r hr
+    obtain ⟨t, _, hd, ho⟩ := (hmem_app r).mp hr
+    exact ⟨t, hw.out_key t r ho, hd⟩
+  have hnot_done : ∀ t, done K t = false → ∀ r ∈ K, r.key ≠ t.key := by
+    intro t hd r hr hk
+    have := (done_iff w hI K hKU t).mpr ⟨r, hr, hk⟩
+    rw [hd] at this; cases this
+  -- the preamble
+  have hP := preamble_spec w hw hT fl K hKU hpre
+  have hpreU : ∀ r ∈ preamble fl w.ver w.exp K, r ∈ w.universe := by
+    intro r hr
+    rcases hP with ⟨_, h⟩ | ⟨_, _, h⟩ | ⟨_, _, h⟩ <;> rw [h] at hr <;> simp at hr
+    · rcases hr with rfl | rfl <;> assumption
+    · rw [hr]; exact hexpU
+  have hFU : ∀ r ∈ K ++ (preamble fl w.ver w.exp K ++ app), r ∈ w.universe := by
+    intro r hr
+    simp only [List.mem_append] at hr
+    rcases hr with h | h | h
+    · exact hKU r h
+    · exact hpreU r h
+    · exact happU r h
+  -- head of the final log is the version line
+  have hhead : ∀ r, (K ++ (preamble fl w.ver w.exp K ++ app)).head? = some r → r = w.ver := by
+    intro r hr
+    cases hK : K with
+    | nil =>
+      rcases hP with ⟨_, h⟩ | ⟨hne, _⟩ | ⟨hne, _⟩
+      · rw [hK] at hr h; rw [h] at hr; simpa using hr.symm
+      · exact absurd hK hne
+      · exact absurd hK hne
+    | cons a K' =>
+      rw [hK] at hr
+      apply hKv.2.2
+      rw [hK]; simpa using hr
+  -- keys of the final log are pairwise distinct
+  have hkeys : ((K ++ (preamble fl w.ver w.exp K ++ app)).map (·.key)).Nodup := by
+    simp only [List.map_append]
+    rw [List.nodup_append, List.nodup_append]
+    refine ⟨hKv.1, ⟨?_, happk, ?_⟩, ?_⟩
+    · rcases hP with ⟨_, h⟩ | ⟨_, _, h⟩ | ⟨_, _, h⟩ <;> rw [h] <;> simp [hw.ver_key, hw.exp_key]
+    · intro a ha b hb hab
+      subst hab
+      obtain ⟨r, hr, rfl⟩ := List.mem_map.mp hb
+      obtain ⟨t, hk, _⟩ := happ_task r hr
+      rcases hP with ⟨_, h⟩ | ⟨_, _, h⟩ | ⟨_, _, h⟩ <;> rw [h] at ha <;>
+        simp [hw.ver_key, hw.exp_key] at ha
+      · rcases ha with ha | ha
+        · exact t.key_ne_ver (hk ▸ ha)
+        · exact t.key_ne_exp (hk ▸ ha)
+      · exact t.key_ne_exp (hk ▸ ha)
+    · intro a ha b hb hab
+      subst hab
+      obtain ⟨r, hr, rfl⟩ := List.mem_map.mp ha
+      rcases List.mem_append.mp hb with hb | hb
+      · rcases hP with ⟨hK, _⟩ | ⟨_, _, h⟩ | ⟨_, hne, h⟩
+        · rw [hK] at hr; simp at hr
+        · rw [h] at hb; simp at hb
+        · rw [h] at hb
+          simp only [List.map_cons, List.map_nil, List.mem_singleton, hw.exp_key] at hb
+          have : r = w.exp := eq_of_key_eq hUk (hKU r hr) hexpU (by rw [hb, hw.exp_key])
+          exact hne (this ▸ hr)
+      · obtain ⟨r', hr', hk'⟩ := List.mem_map.mp hb
+        obtain ⟨t, hk, hd⟩ := happ_task r' hr'
+        exact hnot_done t hd r hr (by rw [← hk, hk'])
+  have hvalid : ValidLog w (K ++ (preamble fl w.ver w.exp K ++ app)) := ⟨hkeys, hFU, hhead⟩
+  -- the final file and its decoding
+  have hfile : o.file = serialize ((K ++ (preamble fl w.ver w.exp K ++ app)).map w.c.enc) := by
+    simp only [o, finish, List.map_append, serialize_append]
+  have hfinal : o.final = some (K ++ (preamble fl w.ver w.exp K ++ app)) := by
+    have hf : o.final = decodeAll w.c o.file := rfl
+    rw [hf, hfile]
+    have hne : K ++ (preamble fl w.ver w.exp K ++ app) ≠ [] := by
+      rcases hP with ⟨_, h⟩ | ⟨hne, _⟩ | ⟨hne, _⟩
+      · rw [h]; simp
+      · simp [hne]
+      · simp [hne]
+    obtain ⟨r0, F', hF⟩ := List.exists_cons_of_ne_nil hne
+    have h0 : r0 = w.ver := hhead r0 (by rw [hF]; rfl)
+    exact decodeAll_serialize w.c w.universe _ hw.codec hFU r0 F' hF (h0 ▸ hw.ver_key)
+  -- nothing lost, nothing twice
+  have hperm : (K ++ (preamble fl w.ver w.exp K ++ app)).Perm w.universe := by
+    rw [List.perm_ext_iff_of_nodup (List.Nodup.of_map _ hkeys) (List.Nodup.of_map _ hUk)]
+    intro r
+    constructor
+    · exact hFU r
+    · intro hr
+      simp only [List.mem_append]
+      rcases (mem_universe_iff w r).mp hr with rfl | rfl | ⟨t, ht, ho⟩
+      · rcases hP with ⟨_, h⟩ | ⟨hne, _, _⟩ | ⟨hne, _, _⟩
+        · right; left; rw [h]; simp
+        · left
+          cases hK : K with
+          | nil => exact absurd hK hne
+          | cons a K' =>
+            have : a = w.ver := hKv.2.2 a (by rw [hK]; rfl)
+            rw [this]; simp
+        · left
+          cases hK : K with
+          | nil => exact absurd hK hne
+          | cons a K' =>
+            have : a = w.ver := hKv.2.2 a (by rw [hK]; rfl)
+            rw [this]; simp
+      · rcases hP with ⟨_, h⟩ | ⟨_, he, _⟩ | ⟨_, _, h⟩
+        · right; left; rw [h]; simp
+        · left; exact he
+        · right; left; rw [h]; simp
+      · cases hd : done K t with
+        | true =>
+          left
+          obtain ⟨r', hr', hk'⟩ := (done_iff w hI K hKU t).mp hd
+          have : r' = r := eq_of_key_eq hUk (hKU r' hr') hr (by rw [hk', hw.out_key t r ho])
+          exact this ▸ hr'
+        | false =>
+          right; right
+          exact (hmem_app r).mpr ⟨t, ht, hd, ho⟩
+  refine ⟨hfile, hfinal, hvalid, hperm, ?_⟩
+  intro t ht r hr
+  have ht' : t ∈ makeTasks K w.triples := ht
+  rw [hTf, List.mem_filter] at ht'
+  exact hnot_done t (by simpa using ht'.2) r hr
+
+/-- the dict of objects after the whole loop -/
+def grow : List Nat → List Nat → List Nat
+  | [], E => E
+  | x :: xs, E => grow xs (ins E x)
+
+theorem prefix_ins (E : List Nat) (x : Nat) : E <+: ins E x := by
+  unfold ins; split
+  · exact List.prefix_refl _
+  · exact List.prefix_append E [x]
+
+theorem prefix_grow (xs E : List Nat) : E <+: grow xs E := by
+  induction xs generalizing E with
+  | nil => exact List.prefix_refl _
+  | cons x xs ih => exact (prefix_ins E x).trans (ih _)
+
+theorem idxOf_prefix {E E2 : List Nat} {x : Nat} (hx : x ∈ E) (h : E <+: E2) : E2.idxOf x = E.idxOf x := by
+  obtain ⟨t, rfl⟩ := h
+  exact List.idxOf_append_of_mem hx
+
+theorem mem_ins (E : List Nat) (x : Nat) : x ∈ ins E x := by
+  unfold ins; split
+  · rename_i h; simpa using h
+  · simp
+
+theorem length_ins (E : List Nat) (x : Nat) : E.length ≤ (ins E x).length := (prefix_ins E x).length_le
+
+theorem length_ins_new (E : List Nat) (x : Nat) (h : E.contains x = false) : (ins E x).length = E.length + 1 := by
+  have : x ∉ E := by simpa using h
+  simp [ins, this]
+
+theorem mem_ite_singleton {α} {c : Prop} [Decidable c] {x t : α} (h : t ∈ (if c then [x] else [])) : t = x ∧ c := by
+  split at h
+  · simp at h; exact ⟨h, ‹_›⟩
+  · simp at h
+
+theorem ite_singleton_nodup {α} {c : Prop} [Decidable c] {x : α} : (if c then [x] else []).Nodup := by
+  by_cases h : c <;> simp [h]
+
+def TaskSpec (ts : List (Nat × Nat × Nat)) (E L V : List Nat) : Task → Prop
+  | .penv i => E.length ≤ i
+  | .plrn i => L.length ≤ i
+  | .pval i => V.length ≤ i
+  | .eval a b c => ∃ e l v, (e, l, v) ∈ ts ∧ a = (grow (ts.map (·.1)) E).idxOf e ∧
+      b = (grow (ts.map (·.2.1)) L).idxOf l ∧ c = (grow (ts.map (·.2.2)) V).idxOf v
+
+theorem mem_mkAux_nil (ts : List (Nat × Nat × Nat)) (E L V : List Nat) (t : Task)
+    (h : t ∈ mkAux [] ts E L V) : TaskSpec ts E L V t := by
+  induction ts generalizing E L V with
+  | nil => simp [mkAux] at h
+  | cons tr ts ih =>
+    obtain ⟨e, l, v⟩ := tr
+    simp only [mkAux, done_nil, List.mem_append] at h
+    rcases h with h | h | h | h | h
+    · obtain ⟨rfl, _⟩ := mem_ite_singleton h; simp [TaskSpec]
+    · obtain ⟨rfl, _⟩ := mem_ite_singleton h; simp [TaskSpec]
+    · obtain ⟨rfl, _⟩ := mem_ite_singleton h; simp [TaskSpec]
+    · obtain ⟨rfl, _⟩ := mem_ite_singleton h
+      refine ⟨e, l, v, by simp, ?_, ?_, ?_⟩
+      · exact (idxOf_prefix (mem_ins E e) (prefix_grow _ _)).symm
+      · exact (idxOf_prefix (mem_ins L l) (prefix_grow _ _)).symm
+      · exact (idxOf_prefix (mem_ins V v) (prefix_grow _ _)).symm
+    · have := ih _ _ _ h
+      cases t with
+      | penv i => exact Nat.le_trans (length_ins E e) this
+      | plrn i => exact Nat.le_trans (length_ins L l) this
+      | pval i => exact Nat.le_trans (length_ins V v) this
+      | eval a b c =>
+        obtain ⟨e2, l2, v2, hm, ha, hb, hc⟩ := this
+        exact ⟨e2, l2, v2, List.mem_cons_of_mem _ hm, ha, hb, hc⟩
+
+theorem mem_grow_of_mem (xs E : List Nat) (x : Nat) (h : x ∈ xs) : x ∈ grow xs E := by
+  induction xs generalizing E with
+  | nil => simp at h
+  | cons y ys ih =>
+    rcases List.mem_cons.mp h with rfl | h
+    · exact (prefix_grow ys _).subset (mem_ins E x)
+    · exact ih _ h
+
+theorem mkAux_nil_nodup (ts : List (Nat × Nat × Nat)) (hts : ts.Nodup) (E L V : List Nat) :
+    (mkAux [] ts E L V).Nodup := by
+  induction ts generalizing E L V with
+  | nil => simp [mkAux]
+  | cons tr ts ih =>
+    obtain ⟨e, l, v⟩ := tr
+    have ⟨hnot, hts'⟩ := List.nodup_cons.mp hts
+    have hrest := ih hts' (ins E e) (ins L l) (ins V v)
+    have hspec := fun t ht => mem_mkAux_nil ts (ins E e) (ins L l) (ins V v) t ht
+    simp only [mkAux, done_nil]
+    rw [List.nodup_append]
+    refine ⟨ite_singleton_nodup, ?_, ?_⟩
+    · rw [List.nodup_append]
+      refine ⟨ite_singleton_nodup, ?_, ?_⟩
+      · rw [List.nodup_append]
+        refine ⟨ite_singleton_nodup, ?_, ?_⟩
+        · rw [List.nodup_append]
+          refine ⟨ite_singleton_nodup, hrest, ?_⟩
+          intro a ha b hb hab
+          obtain ⟨rfl, _⟩ := mem_ite_singleton ha
+          subst hab
+          obtain ⟨e2, l2, v2, hm, h1, h2, h3⟩ := hspec _ hb
+          have he : e = e2 := by
+            have hx := idxOf_prefix (mem_ins E e) (prefix_grow (ts.map (·.1)) (ins E e))
+            rw [← hx] at h1
+            exact (List.idxOf_inj ((prefix_grow _ _).subset (mem_ins E e))).mp h1
+          have hl : l = l2 := by
+            have hx := idxOf_prefix (mem_ins L l) (prefix_grow (ts.map (·.2.1)) (ins L l))
+            rw [← hx] at h2
+            exact (List.idxOf_inj ((prefix_grow _ _).subset (mem_ins L l))).mp h2
+          have hv : v = v2 := by
+            have hx := idxOf_prefix (mem_ins V v) (prefix_grow (ts.map (·.2.2)) (ins V v))
+            rw [← hx] at h3
+            exact (List.idxOf_inj ((prefix_grow _ _).subset (mem_ins V v))).mp h3
+          subst he hl hv
+          exact hnot hm
+        · intro a ha b hb hab
+          obtain ⟨rfl, hc⟩ := mem_ite_singleton ha
+          subst hab
+          rcases List.mem_append.mp hb with hb | hb
+          · obtain ⟨h, _⟩ := mem_ite_singleton hb; cases h
+          · have := hspec _ hb
+            simp only [TaskSpec] at this
+            have hl := length_ins_new V v (by simpa using hc)
+            omega
+      · intro a ha b hb hab
+        obtain ⟨rfl, hc⟩ := mem_ite_singleton ha
+        subst hab
+        rcases List.mem_append.mp hb with hb | hb
+        · obtain ⟨h, _⟩ := mem_ite_singleton hb; cases h
+        rcases List.mem_append.mp hb with hb | hb
+        · obtain ⟨h, _⟩ := mem_ite_singleton hb; cases h
+        · have := hspec _ hb
+          simp only [TaskSpec] at this
+          have hl := length_ins_new L l (by simpa using hc)
+          omega
+    · intro a ha b hb hab
+      obtain ⟨rfl, hc⟩ := mem_ite_singleton ha
+      subst hab
+      rcases List.mem_append.mp hb with hb | hb
+      · obtain ⟨h, _⟩ := mem_ite_singleton hb; cases h
+      rcases List.mem_append.mp hb with hb | hb
+      · obtain ⟨h, _⟩ := mem_ite_singleton hb; cases h
+      rcases List.mem_append.mp hb with hb | hb
+      · obtain ⟨h, _⟩ := mem_ite_singleton hb; cases h
+      · have := hspec _ hb
+        simp only [TaskSpec] at this
+        have hl := length_ins_new E e (by simpa using hc)
+        omega
+
+theorem makeTasks_nodup' (ts : List (Nat × Nat × Nat)) (hts : ts.Nodup) : (makeTasks [] ts).Nodup :=
+  mkAux_nil_nodup ts hts [] [] []
+
+theorem find?_of_nodup_map {α β} [DecidableEq β] (f : α → β) (l : List α) (h : (l.map f).Nodup)
+    (p : α) (hp : p ∈ l) : l.find? (fun q => decide (f q = f p)) = some p := by
+  induction l with
+  | nil => simp at hp
+  | cons a l ih =>
+    simp only [List.map_cons, List.nodup_cons] at h
+    rcases List.mem_cons.mp hp with rfl | hp
+    · simp
+    · have hne : f a ≠ f p := fun e => h.1 (e ▸ List.mem_map_of_mem hp)
+      simp [hne, ih h.2 hp]
+
+theorem balanced_ne_nil {b : Bytes} (h : balanced b = true) : b ≠ [] := by
+  rintro rfl; simp [balanced] at h
+
+theorem tableCodec_lawful (tbl : List (Rec × Bytes)) (h : tableOK tbl = true) :
+    (tableCodec tbl).Lawful (tbl.map (·.1)) := by
+  simp only [tableOK, Bool.and_eq_true, List.all_eq_true, decide_eq_true_eq] at h
+  obtain ⟨⟨hall, h1⟩, h2⟩ := h
+  have henc : ∀ p ∈ tbl, tableEnc tbl p.1 = p.2 := by
+    intro p hp
+    simp only [tableEnc, find?_of_nodup_map (·.1) tbl h1 p hp]
+  constructor
+  · intro r hr
+    obtain ⟨p, hp, rfl⟩ := List.mem_map.mp hr
+    simp only [tableCodec, henc p hp, tableDec, (hall p hp).1, if_true,
+      find?_of_nodup_map (·.2) tbl h2 p hp, Option.map_some]
+  · intro r hr
+    obtain ⟨p, hp, rfl⟩ := List.mem_map.mp hr
+    simp only [tableCodec, henc p hp]
+    exact (hall p hp).2
+  · intro r hr
+    obtain ⟨p, hp, rfl⟩ := List.mem_map.mp hr
+    simp only [tableCodec, henc p hp]
+    exact balanced_ne_nil (hall p hp).1
+  · intro r hr q hq hne
+    obtain ⟨p, hp, rfl⟩ := List.mem_map.mp hr
+    simp only [tableCodec, henc p hp] at hq hne ⊢
+    simp [tableDec, balanced_prefix_free p.2 q (hall p hp).1 hq hne]
+
+theorem prefix_lines' (rs : List Bytes) (h : ∀ r ∈ rs, NoNL r) (k : Nat) :
+    ∃ j p, (serialize rs).take k = serialize (rs.take j) ++ p ∧
+      splitNL ((serialize rs).take k) = (rs.take j, p) ∧ NoNL p ∧
+      (p = [] ∨ ∃ r, rs[j]? = some r ∧ p <+: r) := by
+  obtain ⟨j, p, h1, h2⟩ := take_serialize rs k
+  have hp : NoNL p := by
+    rcases h2 with rfl | ⟨r, hr, hpr⟩
+    · simp [NoNL]
+    · exact NoNL_prefix (h r (List.mem_of_getElem? hr)) hpr
+  refine ⟨j, p, h1, ?_, hp, h2⟩
+  rw [h1, splitNL_serialize_append _ (fun r hr => h r (List.mem_of_mem_take hr)), splitNL_noNL hp]
+  simp
+
+theorem filter_key_length_le_one (U : List Rec) (hU : (U.map (·.key)).Nodup) (k : Key) :
+    (bodies U k).length ≤ 1 := by
+  induction U with
+  | nil => simp [bodies]
+  | cons a U ih =>
+    simp only [List.map_cons, List.nodup_cons] at hU
+    by_cases ha : a.key = k
+    · have : bodies U k = [] := by
+        simp only [bodies, List.filter_eq_nil_iff, decide_eq_true_eq]
+        intro b hb hk
+        exact hU.1 (ha ▸ hk ▸ List.mem_map_of_mem hb)
+      simp only [bodies] at this ⊢
+      simp [ha, this]
+    · simp only [bodies] at ih ⊢
+      simp only [List.filter_cons, ha, decide_false]
+      exact ih hU.2
+
+theorem bodies_eq_of_perm' {F U : List Rec} (hp : F.Perm U) (hU : (U.map (·.key)).Nodup) (k : Key) :
+    bodies F k = bodies U k := by
+  have hperm : (bodies F k).Perm (bodies U k) := hp.filter _
+  have hlen := filter_key_length_le_one U hU k
+  match hb : bodies U k with
+  | [] => rw [hb] at hperm; exact hperm.eq_nil
+  | [x] => rw [hb] at hperm; exact List.perm_singleton.mp hperm
+  | _ :: _ :: _ => rw [hb] at hlen; simp at hlen
+
+theorem serialize_take_eq_take (rs : List Bytes) (j : Nat) :
+    serialize (rs.take j) = (serialize rs).take (serialize (rs.take j)).length := by
+  conv_rhs => rw [← List.take_append_drop j rs, serialize_append]
+  simp
+
+theorem Codec.Lawful.mono {c : Codec} {U V : List Rec} (h : c.Lawful U) (hV : ∀ r ∈ V, r ∈ U) : c.Lawful V :=
+  ⟨fun r hr => h.dec_enc r (hV r hr), fun r hr => h.noNL r (hV r hr), fun r hr => h.ne r (hV r hr),
+   fun r hr => h.torn r (hV r hr)⟩
+
+theorem tableWorld_OK (tbl : List (Rec × Bytes)) (ver exp : Rec) (triples : List (Nat × Nat × Nat))
+    (h : tableWorldOK tbl ver exp triples = true) : (tableWorld tbl ver exp triples).OK := by
+  simp only [tableWorldOK, Bool.and_eq_true, decide_eq_true_eq] at h
+  obtain ⟨⟨⟨⟨⟨h1, h2⟩, h3⟩, h4⟩, h5⟩, h6⟩ := h
+  have hout : ∀ t r, tableOut tbl t = some r → r.key = t.key ∧ r ∈ tbl.map (·.1) := by
+    intro t r ho
+    simp only [tableOut, Option.map_eq_some_iff] at ho
+    obtain ⟨p, hp, rfl⟩ := ho
+    have := List.find?_some hp
+    exact ⟨by simpa using this, List.mem_map_of_mem (List.mem_of_find?_eq_some hp)⟩
+  refine ⟨h2, h3, fun t r ho => (hout t r ho).1, ?_, h6⟩
+  apply (tableCodec_lawful tbl h1).mono
+  intro r hr
+  rcases (mem_universe_iff _ r).mp hr with rfl | rfl | ⟨t, _, ho⟩
+  · exact h4
+  · exact h5
+  · exact (hout t r ho).2
+
+theorem restore_none (fl : Flags) (c : Codec) : restore fl c none = some ⟨[], []⟩ := rfl
+
+/-- the code as it is restores a clean, non-empty log exactly like the repaired code -/
+theorem restore_boundary (fl : Flags) (w : World) (hw : w.OK) (K : List Rec) (hK : ValidLog w K) (hne : K ≠ []) :
+    restore fl w.c (some (serialize (K.map w.c.enc))) = some ⟨serialize (K.map w.c.enc), K⟩ := by
+  obtain ⟨r0, K', rfl⟩ := List.exists_cons_of_ne_nil hne
+  have hhead : r0 = w.ver := hK.2.2 r0 rfl
+  have hdec := decodeAll_serialize w.c w.universe (r0 :: K') hw.codec hK.2.1 r0 K' rfl (hhead ▸ hw.ver_key)
+  have hrep : repair w.c (serialize ((r0 :: K').map w.c.enc)) = serialize ((r0 :: K').map w.c.enc) := by
+    have := repair_cut w.c w.universe (r0 :: K') hw.codec hK.2.1 [] (Or.inl rfl)
+    simp only [List.append_nil] at this
+    rcases this with ⟨h, _⟩ | ⟨r, hr, he, _⟩
+    · exact h
+    · exact absurd he.symm (hw.codec.ne r hr)
+  have hne' : (serialize ((r0 :: K').map w.c.enc)).isEmpty = false := by simp [serialize]
+  simp only [restore]
+  cases fl.repairPlain
+  · simp only [Bool.false_and, Bool.false_eq_true, if_false, hdec]
+  · simp only [if_true, hrep, Bool.true_and, hne', hdec]
+    simp
+
+theorem resume_correct' (w : World) (hw : w.OK) (hI : NonEmptyI w) (L : List Rec) (hL : ValidLog w L) (k : Nat) :
+    ∃ j p K, (serialize (L.map w.c.enc)).take k = serialize ((L.take j).map w.c.enc) ++ p ∧
+      (p = [] ∨ ∃ x, L[j]? = some x ∧ p <+: w.c.enc x) ∧ K <+: L ∧ L.take j <+: K ∧
+      restore Flags.fixed w.c (some ((serialize (L.map w.c.enc)).take k)) = some ⟨serialize (K.map w.c.enc), K⟩ ∧
+      ∀ app, app.Perm ((makeTasks K w.triples).filterMap w.out) →
+        let o := finish w.c ⟨serialize (K.map w.c.enc), K⟩ (makeTasks K w.triples)
+          (preamble Flags.fixed w.ver w.exp K) app
+        o.file = serialize ((K ++ o.appended).map w.c.enc) ∧
+        o.final = some (K ++ o.appended) ∧
+        ValidLog w (K ++ o.appended) ∧
+        (K ++ o.appended).Perm w.universe ∧
+        (∀ t ∈ o.tasks, ∀ r ∈ K, r.key ≠ t.key) := by
+  obtain ⟨j, p, K, h1, h2, hres, hKL, hjK⟩ := restore_fixed w hw L hL k
+  refine ⟨j, p, K, h1, h2, hKL, hjK, hres, ?_⟩
+  intro app happ
+  exact finish_correct w hw (makeTasks_nodup' _ hw.triples_nodup) hI K (hL.prefix hKL) Flags.fixed
+    (Or.inl rfl) app happ
+
+/-- complete lines of a cut log, decoded -/
+theorem complete_lines_of_cut (w : World) (hw : w.OK) (L : List Rec) (hL : ∀ r ∈ L, r ∈ w.universe)
+    (j : Nat) (p : Bytes) (hp : p = [] ∨ ∃ x, L[j]? = some x ∧ p <+: w.c.enc x) :
+    (splitNL (serialize ((L.take j).map w.c.enc) ++ p)).1 = (L.take j).map w.c.enc := by
+  have hNo : NoNL p := by
+    rcases hp with rfl | ⟨x, hx, hpx⟩
+    · simp [NoNL]
+    · exact NoNL_prefix (hw.codec.noNL x (hL x (List.mem_of_getElem? hx))) hpx
+  rw [splitNL_serialize_append _ _ p, splitNL_noNL hNo]
+  · simp
+  · intro r hr
+    obtain ⟨x, hx, rfl⟩ := List.mem_map.mp hr
+    exact hw.codec.noNL x (hL x (List.mem_of_mem_take hx))
+
+theorem no_reeval' (w : World) (hw : w.OK) (hI : NonEmptyI w) (L : List Rec) (hL : ValidLog w L) (k : Nat) :
+    ∃ R, restore Flags.fixed w.c (some (cut w L k)) = some R ∧
+      ∀ l ∈ (splitNL (cut w L k)).1, ∀ r, w.c.dec l = some r →
+        ∀ t ∈ makeTasks R.K w.triples, t.key ≠ r.key := by
+  obtain ⟨j, p, K, h1, h2, hKL, hjK, hres, hfin⟩ := resume_correct' w hw hI L hL k
+  refine ⟨_, hres, ?_⟩
+  intro l hl r hr t ht
+  have hno := (hfin _ (List.Perm.refl _)).2.2.2.2
+  simp only [cut, logFile] at hl
+  rw [h1, complete_lines_of_cut w hw L hL.2.1 j p h2] at hl
+  obtain ⟨x, hx, rfl⟩ := List.mem_map.mp hl
+  have hxU := hL.2.1 x (List.mem_of_mem_take hx)
+  rw [hw.codec.dec_enc x hxU] at hr
+  have hxr : x = r := Option.some.inj hr
+  exact fun e => hno t ht x (hjK.subset hx) (by rw [hxr]; exact e.symm)
+
+theorem resume_eq' (w : World) (hw : w.OK) (hI : NonEmptyI w) (L : List Rec) (hL : ValidLog w L) (k : Nat) :
+    ∃ o F, resume Flags.fixed w (some (cut w L k)) = some o ∧ o.final = some F ∧
+      o.file = logFile w F ∧ F = o.restored.K ++ o.appended ∧ o.restored.K <+: L ∧
+      ValidLog w F ∧ F.Perm w.universe ∧ (∀ key, bodies F key = bodies w.universe key) ∧
+      (∀ t ∈ o.tasks, ∀ r ∈ o.restored.K, r.key ≠ t.key) := by
+  obtain ⟨j, p, K, h1, h2, hKL, hjK, hres, hfin⟩ := resume_correct' w hw hI L hL k
+  obtain ⟨hfile, hfinal, hvalid, hperm, hno⟩ := hfin _ (List.Perm.refl _)
+  refine ⟨_, _, ?_, hfinal, hfile, rfl, hKL, hvalid, hperm, ?_, hno⟩
+  · simp only [resume, cut, logFile, hres]
+  · intro key
+    exact bodies_eq_of_perm' hperm (universe_keys_nodup w hw (makeTasks_nodup' _ hw.triples_nodup)) key
+
+/-- an uninterrupted run (no result file yet), under either version of the code -/
+theorem fresh_run' (fl : Flags) (w : World) (hw : w.OK) (hI : NonEmptyI w)
+    (app : List Rec) (happ : app.Perm ((makeTasks [] w.triples).filterMap w.out)) :
+    restore fl w.c none = some ⟨[], []⟩ ∧
+    let o := finish w.c ⟨[], []⟩ (makeTasks [] w.triples) (preamble fl w.ver w.exp []) app
+    o.file = logFile w o.appended ∧ o.final = some o.appended ∧ ValidLog w o.appended ∧
+    o.appended.Perm w.universe := by
+  refine ⟨rfl, ?_⟩
+  have := finish_correct w hw (makeTasks_nodup' _ hw.triples_nodup) hI [] (ValidLog.nil w) fl
+    (Or.inr (Or.inl rfl)) app happ
+  simp only [List.map_nil, serialize, List.nil_append] at this
+  exact ⟨this.1, this.2.1, this.2.2.1, this.2.2.2.1⟩
+
+/-- the code as it is, on a cut that falls on a record boundary after the experiment line -/
+theorem resume_cur_partial' (w : World) (hw : w.OK) (hI : NonEmptyI w) (K : List Rec) (hK : ValidLog w K)
+    (hexp : w.exp ∈ K) (app : List Rec) (happ : app.Perm ((makeTasks K w.triples).filterMap w.out)) :
+    restore Flags.cur w.c (some (logFile w K)) = some ⟨logFile w K, K⟩ ∧
+    let o := finish w.c ⟨logFile w K, K⟩ (makeTasks K w.triples) (preamble Flags.cur w.ver w.exp K) app
+    o.file = logFile w (K ++ o.appended) ∧ o.final = some (K ++ o.appended) ∧
+    ValidLog w (K ++ o.appended) ∧ (K ++ o.appended).Perm w.universe ∧
+    (∀ t ∈ o.tasks, ∀ r ∈ K, r.key ≠ t.key) := by
+  have hne : K ≠ [] := by rintro rfl; simp at hexp
+  exact ⟨restore_boundary Flags.cur w hw K hK hne,
+    finish_correct w hw (makeTasks_nodup' _ hw.triples_nodup) hI K hK Flags.cur (Or.inr (Or.inr hexp)) app happ⟩
+
+/-- a `.gz` log with an incomplete trailing member is, after the repair, a log cut on a record boundary -/
+theorem gz_cut' (w : World) (L : List Rec) (j : Nat) (torn : Bool) :
+    ∃ k, gzView Flags.fixed (L.map w.c.enc) j torn = some (cut w L k) := by
+  refine ⟨(serialize ((L.map w.c.enc).take j)).length, ?_⟩
+  simp only [gzView, Flags.fixed, Bool.not_true, Bool.and_false, Bool.false_eq_true, if_false, cut, logFile]
+  rw [← serialize_take_eq_take]
+/-! ### concrete witnesses (replayed on the real code by the harness corpus) -/
+namespace Ex
+
+/-- a one-triple experiment; record texts `[v]`, `[x]`, `[L]`, `[V]`, `[E]`, `[I]` -/
+def rVer : Rec := ⟨.ver, 0, 0⟩
+def rExp : Rec := ⟨.exp, 0, 1⟩
+def rL : Rec := ⟨.lrn 0, 0, 2⟩
+def rV : Rec := ⟨.val 0, 0, 3⟩
+def rE : Rec := ⟨.env 0, 0, 4⟩
+def rI : Rec := ⟨.int 0 0 0, 2, 5⟩
+def tbl : List (Rec × Bytes) :=
+  [(rVer, [91, 118, 93]), (rExp, [91, 120, 93]), (rL, [91, 76, 93]), (rV, [91, 86, 93]), (rE, [91, 69, 93]),
+   (rI, [91, 73, 93])]
+def w : World := tableWorld tbl rVer rExp [(0, 0, 0)]
+/-- the uninterrupted log -/
+def log : List Rec := [rVer, rExp, rE, rL, rV, rI]
+def full : Bytes := serialize (log.map w.c.enc)
+
+/-- the same experiment whose evaluation yields no rows: `["I",[0,0,0],{"_packed":{}}]` -/
+def rI0 : Rec := ⟨.int 0 0 0, 0, 5⟩
+def tbl0 : List (Rec × Bytes) :=
+  [(rVer, [91, 118, 93]), (rExp, [91, 120, 93]), (rL, [91, 76, 93]), (rV, [91, 86, 93]), (rE, [91, 69, 93]),
+   (rI0, [91, 73, 93])]
+def w0 : World := tableWorld tbl0 rVer rExp [(0, 0, 0)]
+def log0 : List Rec := [rVer, rExp, rE, rL, rV, rI0]
+def full0 : Bytes := serialize (log0.map w0.c.enc)
+
+end Ex
+
 end Coba.C02
